@@ -237,7 +237,7 @@ func (x *Exec) load(st *State, p Val, t types.Type) Val {
 		for _, pe := range p.Place.Path {
 			if pe.Field >= 0 {
 				si := x.w.structInfo(ct)
-				cur = app(selName(si, pe.Field), cur)
+				cur = selApp(si, pe.Field, cur)
 				ct = ct.Underlying().(*types.Struct).Field(pe.Field).Type()
 			} else {
 				cur = app("select", cur, pe.Index)
@@ -290,7 +290,7 @@ func (x *Exec) updatePath(cur string, ct types.Type, path []PathElem, v string) 
 	if pe.Field >= 0 {
 		si := x.w.structInfo(ct)
 		ft := ct.Underlying().(*types.Struct).Field(pe.Field).Type()
-		inner := x.updatePath(app(selName(si, pe.Field), cur), ft, path[1:], v)
+		inner := x.updatePath(selApp(si, pe.Field, cur), ft, path[1:], v)
 		return x.w.structUpdate(si, cur, pe.Field, inner)
 	}
 	et := ct.Underlying().(*types.Array).Elem()
@@ -589,14 +589,72 @@ func (x *Exec) execBlock(run *funcRun, st *State, b *ssa.BasicBlock, idx int) {
 			if st.dead {
 				return
 			}
+			x.nameResult(st, in)
+			x.abbrevHeap(st)
 		default:
 			x.step(st, in)
 			if st.dead {
 				return
 			}
+			x.nameResult(st, in)
 		}
 	}
 	_ = fr
+}
+
+const nameThreshold = 48
+
+// nameResult abbreviates a long term by a fresh constant (v = term is added to the path condition); this keeps
+// the queries small and lets the solvers share sub-terms.
+func (x *Exec) nameResult(st *State, in ssa.Instruction) {
+	v, ok := in.(ssa.Value)
+	if !ok {
+		return
+	}
+	val, ok := st.top.vals[v]
+	if !ok {
+		return
+	}
+	st.top.vals[v] = x.abbrev(st, val, v.Name())
+}
+
+func (x *Exec) abbrev(st *State, val Val, hint string) Val {
+	if x.pureMode > 0 {
+		return val // terms may mention bound variables of the enclosing contract
+	}
+	if len(val.Tuple) > 0 {
+		for i := range val.Tuple {
+			val.Tuple[i] = x.abbrev(st, val.Tuple[i], hint)
+		}
+		return val
+	}
+	if val.Place != nil || val.S == "" || len(val.S) < nameThreshold || val.Sort == "" || val.Sort == "Tuple" {
+		return val
+	}
+	if mentionsBound(val.S, map[string]bool{"k!z": true, "p!z": true}) {
+		return val
+	}
+	n := x.g.fresh("v_"+hint, val.Sort)
+	st.assume(app("=", n, val.S))
+	val.S = n
+	return val
+}
+
+func (x *Exec) abbrevHeap(st *State) {
+	if x.pureMode > 0 {
+		return
+	}
+	for name, cur := range st.heap {
+		if len(cur) > 160 {
+			srt, ok := x.w.compSorts[name]
+			if !ok {
+				continue
+			}
+			n := x.g.fresh(name, compArraySort(name, srt))
+			st.assume(app("=", n, cur))
+			st.heap[name] = n
+		}
+	}
 }
 
 func (x *Exec) jump(run *funcRun, st *State, from, to *ssa.BasicBlock) {
@@ -660,28 +718,38 @@ func (x *Exec) activeClause(c Clause) bool {
 
 // proveClause emits an obligation for a contract clause in state st. Conjunctions are split.
 func (x *Exec) proveClause(st *State, env *Env, c Clause, kind, site string) {
-	var side []string
-	env.side = &side
-	goal := x.trClause(env, c.E, c.Src)
 	henv := *env
 	henv.post = false
+	var hside []string
+	henv.side = &hside
 	hy := x.byHints(&henv, c.By)
-	s2 := st
-	if len(side) > 0 || len(hy) > 0 {
-		s2 = st.clone()
-		for _, f := range side {
-			s2.assume(f)
+	parts := x.w.expandGoal(c.E, 0)
+	n := 0
+	for _, part := range parts {
+		var side []string
+		env.side = &side
+		goal := x.trClause(env, part, c.Src)
+		s2 := st
+		if len(side) > 0 || len(hy) > 0 || len(hside) > 0 {
+			s2 = st.clone()
+			for _, f := range hside {
+				s2.assume(f)
+			}
+			for _, f := range side {
+				s2.assume(f)
+			}
+			for _, f := range hy {
+				s2.assume(f)
+			}
 		}
-		for _, f := range hy {
-			s2.assume(f)
+		for _, g := range splitConj(goal) {
+			s := site
+			if n > 0 {
+				s = fmt.Sprintf("%s.%d", site, n+1)
+			}
+			n++
+			x.emit(s2, kind, s, g, c.Src)
 		}
-	}
-	for i, g := range splitConj(goal) {
-		s := site
-		if i > 0 {
-			s = fmt.Sprintf("%s.%d", site, i+1)
-		}
-		x.emit(s2, kind, s, g, c.Src)
 	}
 }
 
@@ -1014,6 +1082,7 @@ func (x *Exec) step(st *State, in ssa.Instruction) {
 		v := x.val(st, n.Val)
 		x.nilCheck(st, p, in)
 		x.store(st, p, n.Val.Type(), v)
+		x.abbrevHeap(st)
 	case *ssa.UnOp:
 		x.unop(st, n)
 	case *ssa.BinOp:
@@ -1044,7 +1113,7 @@ func (x *Exec) step(st *State, in ssa.Instruction) {
 		v := x.val(st, n.X)
 		si := w.structInfo(n.X.Type())
 		ft := n.X.Type().Underlying().(*types.Struct).Field(n.Field).Type()
-		fr.vals[n] = Val{S: app(selName(si, n.Field), v.S), Sort: w.sortOf(ft), T: ft}
+		fr.vals[n] = Val{S: selApp(si, n.Field, v.S), Sort: w.sortOf(ft), T: ft}
 	case *ssa.IndexAddr:
 		p := x.val(st, n.X)
 		iv := x.val(st, n.Index)
